@@ -25,6 +25,7 @@ mod c20;
 mod dynaut;
 mod core;
 mod memtrack;
+mod wrap;
 
 #[global_allocator]
 static ALLOC: memtrack::Counting = memtrack::Counting;
@@ -148,6 +149,10 @@ fn main() {
             }
             cases.extend(p.generate(tier, &mut rng, &mut stats));
             let outs = run_cases(&*p, &cases);
+            // what the executors' self-checks (X) actually exercised
+            for (k, v) in xcounts() {
+                stats.add(&format!("selfcheck_{}", k), v);
+            }
             let mut f = std::io::BufWriter::new(std::fs::File::create(format!("{}/cases.txt", outdir)).unwrap());
             for c in &cases {
                 writeln!(f, "{}", c).unwrap();
